@@ -1,9 +1,30 @@
-(* C17 property theorems (statements closed by [exact]); filled as the proofs land. *)
-From Tbfmm Require Import Base.Prelude Index.MortonDefs Tree.GroupDefs Tree.BuildDefs Tree.Invariant Tree.ExportDefs.
+(* C17 — bulk export returns every particle's values under its original index.  Proofs in Tree/ExportProofs.v. *)
+From Tbfmm Require Import Base.Prelude Index.MortonDefs Tree.GroupDefs Tree.BuildDefs Tree.Invariant Tree.ExportDefs Tree.ExportProofs.
 Local Open Scope Z_scope.
+
+(* entry i of the exported array holds the values of the particle inserted at position i: any value type, any number of values
+   per particle, any internal ordering, any tree in which every particle is stored once with consistent leaf headers *)
+Theorem C17_export_spec : forall (V : Type) (dflt : V) (input : Z -> Z -> V) nv t idx i v,
+  particles_ok idx t -> Forall pgroup_ok (t_pgroups t) -> 0 <= i < zlen idx -> 0 <= v < nv ->
+  export_get V dflt input nv t i v = input i v.
+Proof. exact export_spec. Qed.
+Print Assumptions C17_export_spec.
+
+Theorem C17_export_spec_build : forall (V : Type) (dflt : V) (input : Z -> Z -> V) nv par H B mode idx i v,
+  (forall a b, a <= b -> par a <= par b) -> (forall a, 0 <= a -> 0 <= par a) ->
+  1 <= H -> 1 <= B -> idx <> [] -> Forall (fun c => 0 <= c) idx -> 0 <= i < zlen idx -> 0 <= v < nv ->
+  export_get V dflt input nv (build par H B mode idx) i v = input i v.
+Proof. exact export_spec_build. Qed.
+Print Assumptions C17_export_spec_build.
+
+(* the index expression of the pinned commit (out[value][particle]) does not have the property: witness with 2 particles,
+   3 values (this is the defect repaired by the "fix: bulk export ..." commit; kept as documentation of what the check replays) *)
+Theorem C17_export_transposed_refuted : exists (t : tree) (i v : Z),
+  lookup_write Z (export_writes_transposed Z (fun i v => 10 * i + v) 3 t) i v (-1) <> 10 * i + v /\ 0 <= i < 2 /\ 0 <= v < 3.
+Proof. exact export_transposed_refuted. Qed.
+Print Assumptions C17_export_transposed_refuted.
 
 Example C17_example :
   let t := build (parent 3) 3 2 false [5;5;63;0;9;12;9] in
   map (fun i => export_get Z (-1) (fun i _ => i) 1 t i 0) (zseq 7) = zseq 7.
 Proof. vm_compute. reflexivity. Qed.
-Print Assumptions C17_example.
